@@ -299,6 +299,32 @@ theorem unable_to_determine_iff (munch : List Char → List Char) (inp : Input) 
   have := (unable_iff munch inp).1 hu
   simp [verdictLanguage, this.1, this.2]
 
+/-- `encoding-in-language-header-field` iff what the field denotes carries an encoding; `language-variant-does-not-affect-translation`
+    iff it carries `@euro` -/
+theorem encoding_and_variant_iff (munch : List Char → List Char) (inp : Input) (out : Output)
+    (h : checkLanguage munch inp = .ok out) :
+    (hasName "encoding-in-language-header-field" out.tags ↔
+        inp.isTemplate = false ∧ ∃ v, fieldValue inp.metaLanguages = some v ∧ v ≠ [] ∧ ∃ l, candidate munch v = some l ∧ l.enc.isSome = true)
+    ∧ (hasName "language-variant-does-not-affect-translation" out.tags ↔
+        inp.isTemplate = false ∧ ∃ v, fieldValue inp.metaLanguages = some v ∧ v ≠ [] ∧ ∃ l, candidate munch v = some l ∧ l.mod = some "euro".toList) := by
+  rw [(checkLanguage_verdict munch inp out h).1]
+  refine ⟨?_, ?_⟩
+  · rw [verdict_field_only munch inp _ (Or.inl rfl)]
+    simp only [fieldRules_encoding]
+  · rw [verdict_field_only munch inp _ (Or.inr rfl)]
+    simp only [fieldRules_variant]
+
+/-- `unknown-poedit-language` iff X-Poedit-Language is consulted (one distinct value, at most one distinct X-Poedit-Country) and
+    names no language; `no-language-header-field` iff the field is absent (or empty) and not present with conflicting values
+    (for a template: iff there is no single value) -/
+theorem poedit_and_absent_iff (munch : List Char → List Char) (inp : Input) (out : Output)
+    (h : checkLanguage munch inp = .ok out) :
+    (hasName "unknown-poedit-language" out.tags ↔ inp.isTemplate = false ∧ ∃ p, poeditValue inp = some p ∧ named munch p = none)
+    ∧ (hasName "no-language-header-field" out.tags ↔
+        (if inp.isTemplate then (fieldValue inp.metaLanguages).isNone = true else fieldAbsent inp.metaLanguages = true)) := by
+  rw [(checkLanguage_verdict munch inp out h).1]
+  exact ⟨unknown_poedit_iff munch inp, no_language_header_field_iff munch inp⟩
+
 /-- the correction offered for an English language name always comes from the name table -/
 theorem name_correction_sound (m : List Char) (l : Language) (h : getLanguageForName m = .ok l) :
     ∃ n c, nameCode n = some c ∧ parseLanguage c = some l ∧
